@@ -85,33 +85,54 @@ def op_of(site):
     return pos, neg
 
 
+def _resolve(v, env, depth=0):
+    """Follow single-assignment locals."""
+    while isinstance(v, ast.Name) and depth < 4:
+        vals = [x for x in env.get(v.id, []) if isinstance(x, ast.AST)]
+        if not vals or any(isinstance(x, ast.AugAssign) for x in vals) or len({src(x) for x in vals}) != 1:
+            break
+        v = vals[0]
+        depth += 1
+    return v
+
+
+def _max_over_elements(v, env):
+    """Name N with  N = <int >= 0>  and  N = max(N, D)  where D is a child degree: the running maximum of a loop."""
+    if not isinstance(v, ast.Name):
+        return False
+    vals = [x for x in env.get(v.id, []) if isinstance(x, ast.AST)]
+    inits = [x for x in vals if isinstance(x, ast.Constant) and isinstance(x.value, int) and x.value >= 0]
+    steps = [x for x in vals if isinstance(x, ast.Call) and dotted(x.func) == "max" and len(x.args) == 2 and any(isinstance(a, ast.Name) and a.id == v.id for a in x.args) and any(_is_child(a, env, 1) for a in x.args if not (isinstance(a, ast.Name) and a.id == v.id))]
+    return bool(inits) and bool(steps) and len(inits) + len(steps) == len(vals)
+
+
 def classify(val, env, subject=None):
     """Canonical form of an answer expression."""
     v = val
     if subject is not None and isinstance(v, ast.Call) and (dotted(v.func) or "").startswith("_compute_degree_impl") and v.args and src(v.args[0]) == subject:
         return "DELEGATE"
-    if isinstance(v, ast.Name) and v.id in env and len(env[v.id]) == 1 and not _is_child_name(v.id):
+    if _max_over_elements(v, env):
+        return "MAX-OVER-ELEMENTS"
+    if isinstance(v, ast.Name) and v.id in env and len(env[v.id]) == 1 and not _is_child(v, env):
         return classify(env[v.id][0], env)
     if isinstance(v, ast.Constant):
         return "NONE" if v.value is None else f"CONST {v.value}"
     if isinstance(v, ast.Call):
         f = dotted(v.func)
         if f == "max" and len(v.args) == 2:
-            return "MAX(child, child)" if all(_is_child(a) for a in v.args) else f"MAX({src(v)})"
+            return "MAX(child, child)" if all(_is_child(a, env) for a in v.args) else f"MAX({src(v)})"
         if f == "min":
             return f"MIN({src(v)})"
-        if f == "int" and v.args and (src(v.args[0]).endswith(".power") or (isinstance(v.args[0], ast.Name) and any(isinstance(x, ast.AST) and src(x).endswith(".power") for x in env.get(v.args[0].id, [])))):
+        if f == "int" and v.args and src(_resolve(v.args[0], env)).endswith(".power"):
             return "INT_OF(power)"
-        if _is_child(v):
+        if _is_child(v, env):
             return "CHILD"
-    if isinstance(v, ast.BinOp) and isinstance(v.op, ast.Add) and _is_child(v.left) and _is_child(v.right):
+    if isinstance(v, ast.BinOp) and isinstance(v.op, ast.Add) and _is_child(v.left, env) and _is_child(v.right, env):
         return "SUM(child, child)"
-    if isinstance(v, ast.BinOp) and isinstance(v.op, ast.Mult) and (_is_child(v.left) and _is_int_exp(v.right) or _is_child(v.right) and _is_int_exp(v.left)):
+    if isinstance(v, ast.BinOp) and isinstance(v.op, ast.Mult) and (_is_child(v.left, env) and _is_int_exp(v.right, env) or _is_child(v.right, env) and _is_int_exp(v.left, env)):
         return "SCALE(child, int(exponent))"
-    if _is_child(v):
+    if _is_child(v, env):
         return "CHILD"
-    if isinstance(v, ast.Name) and "max" in v.id:
-        return "MAX-OVER-ELEMENTS"
     return f"?{src(v)[:40]}"
 
 
@@ -119,8 +140,15 @@ def _is_child_name(nm):
     return bool(re.search(r"(left|right|operand)_?(deg|result)|_deg$|_result$", nm)) and "max" not in nm
 
 
-def _is_child(n):
+def _is_child(n, env=None, depth=0):
+    """The degree of a child node: a call of a degree analyser, a pop of the result stack, or a local that only ever
+    holds such values (decided from the assignments; the name pattern is the fallback for unpacked targets)."""
     if isinstance(n, ast.Name):
+        vals = [x for x in (env or {}).get(n.id, []) if isinstance(x, ast.AST)]
+        if vals and depth < 3 and all(not isinstance(x, ast.AugAssign) and _is_child(x, env, depth + 1) for x in vals):
+            return True
+        if _max_over_elements(n, env or {}) if depth == 0 else False:
+            return False
         return _is_child_name(n.id)
     if isinstance(n, ast.Call):
         f = dotted(n.func) or ""
@@ -131,8 +159,13 @@ def _is_child(n):
     return False
 
 
-def _is_int_exp(n):
-    return isinstance(n, ast.Call) and dotted(n.func) == "int" and n.args and "exp" in src(n.args[0])
+def _is_int_exp(n, env=None):
+    """int(<exponent value>), directly or through a local bound only to such a value."""
+    if isinstance(n, ast.Name) and env is not None:
+        vals = [x for x in env.get(n.id, []) if isinstance(x, ast.AST)]
+        live = [x for x in vals if not (isinstance(x, ast.Constant) and x.value is None)]
+        return bool(live) and all(_is_int_exp(x) for x in live)
+    return isinstance(n, ast.Call) and dotted(n.func) == "int" and bool(n.args) and "exp" in src(n.args[0])
 
 
 def implied(pf, pred, positive=True):
@@ -148,8 +181,8 @@ def implied(pf, pred, positive=True):
 P_CONST_RIGHT = lambda a: re.fullmatch(r"isinstance\(\w+\.right, Constant\)", a) is not None
 P_NUMBER = lambda a: re.fullmatch(r"isinstance\(\w+, numbers\.Number\)", a) is not None
 P_INTEGRAL = lambda a: a.endswith(".is_integer()")
-P_NEGATIVE = lambda a: re.fullmatch(r"\w+ < 0(\.0)?", a) is not None
-P_NONNEG = lambda a: re.fullmatch(r"\w+ >= 0(\.0)?", a) is not None
+P_NEGATIVE = lambda a: re.fullmatch(r"[\w.]+ < 0(\.0)?", a) is not None
+P_NONNEG = lambda a: re.fullmatch(r"[\w.]+ >= 0(\.0)?", a) is not None
 
 
 def nonneg_integral(pf):
@@ -247,9 +280,27 @@ def _gkey(site):
     return "|".join(sorted(("" if p else "!") + src(t)[:40] for t, p in site.guards))[:120] or "-"
 
 
-def _elements_loop_sound(arm):
-    s = src(arm.body)
-    return Frag(s, "if d is None", "return None", "max(max_deg, d)")
+def _elements_loop_sound(arm, site=None, env=None):
+    """The loop that produces a running maximum N: `for e in <..>._expressions: D = analyse(e); if D is None: <answer
+    None>; N = max(N, D)` -- every element is analysed, None propagates, the maximum is kept.  Names are free."""
+    for loop in [n for st in arm.body for n in ast.walk(st) if isinstance(n, ast.For)]:
+        if not src(loop.iter).endswith("._expressions") or not isinstance(loop.target, ast.Name):
+            continue
+        elem = loop.target.id
+        D = None
+        none_checked = False
+        kept = False
+        for st in loop.body:
+            if isinstance(st, ast.Assign) and isinstance(st.targets[0], ast.Name) and isinstance(st.value, ast.Call) and (dotted(st.value.func) or "").startswith("_compute_degree") and st.value.args and src(st.value.args[0]) == elem:
+                D = st.targets[0].id
+            elif isinstance(st, ast.If) and D is not None and src(st.test) == f"{D} is None":
+                none_checked = any((isinstance(x, ast.Return) and (x.value is None or (isinstance(x.value, ast.Constant) and x.value.value is None))) for x in st.body) or "append(None)" in src(st.body)
+            elif isinstance(st, ast.Assign) and D is not None and isinstance(st.value, ast.Call) and dotted(st.value.func) == "max" and none_checked:
+                args = {src(a) for a in st.value.args}
+                kept = args == {src(st.targets[0]), D}
+        if D is not None and none_checked and kept:
+            return True
+    return False
 
 
 def _check_binary(prog, rep, fi, d, arm, env):
@@ -273,6 +324,11 @@ def _check_binary(prog, rep, fi, d, arm, env):
         for s in finite:
             form = classify(s.value, env)
             loc = f"{fi.module.rel}:{s.node.lineno}"
+            if form.startswith("?") and _helper_derived(s.value, env):
+                # the answer is computed from the result of a helper this rule does not look into (not a degree
+                # analyser): not decided on this view (the normalised view inlines new helpers)
+                rep.undecided(f"{construct}: the answer `{src(s.value)[:50]}` depends on the result of a helper call; not decided on this view")
+                continue
             if op in ("+", "-"):
                 ok = form == "MAX(child, child)"
                 rep.ob("R04.1", construct, ok, "deg(a +- b) <= max(deg a, deg b)" if ok else f"answers {form}; the degree of a sum can be as large as max(deg a, deg b)", loc=loc, detail="form")
@@ -297,6 +353,15 @@ def _check_binary(prog, rep, fi, d, arm, env):
     other = [s for s in sites if (op_of(s)[0] is None and set(ops) <= op_of(s)[1])]
     for s in other:
         rep.ob("R04.1", f"{fname}[BinaryOp other]", s.is_none, "unknown operators -> None" if s.is_none else "unknown operators get a finite degree", loc=f"{fi.module.rel}:{s.node.lineno}", detail="other-op")
+
+
+def _helper_derived(v, env) -> bool:
+    for n in ast.walk(v):
+        if isinstance(n, ast.Name):
+            for x in env.get(n.id, []):
+                if isinstance(x, ast.Call) and isinstance(x.func, ast.Name) and not _is_child(x) and x.func.id not in ("int", "float", "max", "min", "len", "abs"):
+                    return True
+    return False
 
 
 def _child_is(v, slot, env):
@@ -431,7 +496,7 @@ def _verdict_is_conjunction(prog, rep, lin):
                 if isinstance(st, (ast.For, ast.While)):
                     state["loops"].append(src(st.iter) if isinstance(st, ast.For) else "while")
 
-            ex = Explorer(atom_truth, on_stmt, expand_loop=lambda st: isinstance(st, ast.For) and src(st.iter) in ("self._constraints", "self.constraints"))
+            ex = Explorer(atom_truth, on_stmt, expand_loop=lambda st, state: isinstance(st, ast.For) and src(st.iter) in ("self._constraints", "self.constraints"))
             try:
                 paths = ex.explore(lin.node.body, {"env": {}, "loops": []})
             except TooManyPaths:
